@@ -75,7 +75,7 @@ SMALL = ["rule_min", "corr_event_count", "filter_any"]
 
 def bounds(tier):
     return {"documents": list(DOCS), "replacements": len(REPL), "deviations": 1 if tier == "quick" else "1, and 2 on " + ",".join(SMALL),
-            "entry_points": ["X.from_dict", "SigmaCollection.from_dicts", "SigmaCollection.from_yaml"]}
+            "entry_points": ["X.from_dict", "SigmaCollection.from_dicts (+collect_filters, +resolve_references=False)", "SigmaCollection.from_yaml", "SigmaCollection.load_ruleset"]}
 
 
 def paths(doc, prefix=()):
@@ -145,6 +145,19 @@ def run(load, doc, collect):
     return ("ok", obj, None)
 
 
+_TMP = []
+
+
+def _tmp_root():
+    import atexit, os, shutil, tempfile
+
+    if not _TMP or _TMP[0][0] != os.getpid():
+        d = tempfile.mkdtemp(prefix=f"c07root_{os.getpid()}_")
+        _TMP[:] = [(os.getpid(), d)]
+        atexit.register(shutil.rmtree, d, True)
+    return _TMP[0][1]
+
+
 def judge(res, name, kind, doc, devs, via):
     """via: 'class' | 'dicts' | 'yaml'"""
     from sigma.collection import SigmaCollection
@@ -156,6 +169,25 @@ def judge(res, name, kind, doc, devs, via):
         load = loader(kind)
     elif via == "dicts":
         load = lambda d, collect_errors=False: SigmaCollection.from_dicts(d if isinstance(d, list) else [d], collect_errors)
+    elif via == "dicts-collect-filters":  # filters are only collected, not applied
+        load = lambda d, collect_errors=False: SigmaCollection.from_dicts(d if isinstance(d, list) else [d], collect_errors, collect_filters=True)
+    elif via == "dicts-no-resolve":  # references are resolved later by the caller
+        load = lambda d, collect_errors=False: SigmaCollection.from_dicts(d if isinstance(d, list) else [d], collect_errors, resolve_references=False)
+    elif via == "ruleset":  # one file per document, loaded with load_ruleset
+        def load(d, collect_errors=False):
+            import os, shutil, tempfile
+            from pathlib import Path
+
+            tmp = os.path.join(_tmp_root(), "ruleset")  # the same path for the strict and the collecting run: errors carry their source
+            shutil.rmtree(tmp, ignore_errors=True)
+            os.mkdir(tmp)
+            try:
+                for i, x in enumerate(d if isinstance(d, list) else [d]):
+                    with open(os.path.join(tmp, f"{i:02d}.yml"), "w") as fh:
+                        fh.write(yaml.safe_dump(x, sort_keys=False))
+                return SigmaCollection.load_ruleset([Path(tmp)], collect_errors=collect_errors)
+            finally:
+                shutil.rmtree(tmp, ignore_errors=True)
     else:
         def load(d, collect_errors=False):
             text = yaml.safe_dump_all(d if isinstance(d, list) else [d], sort_keys=False)
@@ -236,6 +268,8 @@ def run_shard(shard, tier, seed):
                     continue  # the argument of from_dicts is always a list (yaml.safe_load_all); not a document
                 m = mutate(doc, p, r)
                 vias = ["class"] + (["dicts", "yaml"] if kind != "collection" else ["yaml"])
+                if kind in ("collection", "correlation", "filter"):
+                    vias += ["dicts-collect-filters", "dicts-no-resolve", "ruleset"]
                 for via in vias:
                     mm = m
                     if via != "class" and kind in ("correlation", "filter"):
@@ -256,7 +290,7 @@ def run_shard(shard, tier, seed):
                     n += 1
                     if n % 8 != k:
                         continue
-                    m = mutate(mutate(doc, p1, r1), p2, r2) if True else None
+                    m = mutate(mutate(doc, p2, r2), p1, r1)  # later path first: deleting a list element must not shift the other path
                     judge(res, name, kind, m, [(p1, r1), (p2, r2)], "class")
         res["samples"].append({"doc": name, "pairs": "all pairs of paths x 8x8 replacements"})
     return res
@@ -272,6 +306,9 @@ def replay(case):
     for p, rr in case["deviations"]:
         r = next(x for x in REPL if repr(x) == rr)
         devs.append((tuple(p), r))
-        doc = mutate(doc, tuple(p), r)
+    for p, r in reversed(devs):
+        doc = mutate(doc, p, r)
+    if case["via"] != "class" and kind in ("correlation", "filter"):
+        doc = [copy.deepcopy(R_FULL), dict(copy.deepcopy(R_MIN), name="other", title="other"), doc]
     judge(res, case["doc"], kind, doc, devs, case["via"])
     return res["violations"]
